@@ -94,9 +94,6 @@ def check_sites(prog, order, text, namespace, what, extra_sites=0):
 def check_inline(case):
     prog = case["prog"]
     src, order = gp.render_program(prog)
-    if _needs_hasrepr(prog):
-        src = src.replace("from inline_snapshot import snapshot\n",
-                          "from inline_snapshot import snapshot, HasRepr\n", 1)
     ses = drivers.run_inline({"test_a.py": src}, {"create"})
     if not ses.ok():
         err = ses.exec_error or ses.collect_error or ses.apply_error
@@ -153,8 +150,9 @@ def check_pytest(case):
     src, order = gp.render_program(prog)
     extra = ["", "def test_ext():"]
     if case["ext"]:
-        src = src.replace("from inline_snapshot import snapshot\n",
-                          "from inline_snapshot import snapshot, outsource\n", 1)
+        first, rest = src.split("\n", 1)
+        assert first.startswith("from inline_snapshot import snapshot")
+        src = first + ", outsource\n" + rest
     for d in case["ext"]:
         extra.append(f"    assert outsource({gv.render(d)}) == snapshot()")
         extra.append(f"    assert [outsource({gv.render(d)}), 1] == snapshot()")
